@@ -853,6 +853,7 @@ fn exec_plain(case: &W2Case, ctx: &mut Ctx) {
 // C04: conservation of response bytes
 
 pub const SIG_HELD_DROPPED: &str = "held-bytes-dropped-on-stage-error";
+pub const SIG_SHORT_SWALLOWED: &str = "undecodable-body-shorter-than-codec-header-swallowed";
 
 fn find_sub(hay: &[u8], needle: &[u8], from: usize) -> Option<usize> {
     if needle.is_empty() {
@@ -1251,9 +1252,59 @@ fn exec_conserve(case: &W2Case, ctx: &mut Ctx) {
         if declared_codec {
             // The body claims an encoding.  A damaged or misdeclared stream must leave the chain in its error
             // state, from which every chunk passes through unchanged (deliberate, narrow relaxation: DESIGN §3 C04).
-            match got.error_at {
-                Some(k) => {
-                    for j in k..chunks.len() {
+            if case.enc.is_none() {
+                // misdeclared: nothing can really be decoded, so conservation is exact, whatever the chunking
+                // (an empty body has no byte to lose: the codec stages legitimately wrap what the filters insert)
+                if got.out != w && !w.is_empty() {
+                    // open finding, narrow: the body is shorter than the declared codec's header, the decoder neither
+                    // fails nor outputs anything, and what comes out is a valid stream of that encoding holding
+                    // nothing but the inserted values
+                    if got.error_at.is_none() && w.len() <= 10 && ctx.is_open(SIG_SHORT_SWALLOWED) {
+                        let codec = match ce.as_deref() {
+                            Some("gzip") => "gzip",
+                            Some("deflate") => "deflate",
+                            _ => "br",
+                        };
+                        if let Ok(dec) = decode(codec, &got.out) {
+                            let mut rest = dec;
+                            for v in fc.insert_values.iter().chain(fc.replace_values.iter()) {
+                                rest = remove_all(&rest, v);
+                            }
+                            if rest.is_empty() {
+                                ctx.known(SIG_SHORT_SWALLOWED, || format!("Content-Encoding {ce:?}, body {} ({} bytes) swallowed without error", show(w), w.len()));
+                                return;
+                            }
+                        }
+                    }
+                    if let Some(k) = got.error_at {
+                        let before: Vec<u8> = got.per_call[..k.min(got.per_call.len())].concat();
+                        let start_k: usize = chunks[..k.min(chunks.len())].iter().map(|c| c.len()).sum();
+                        if ctx.is_open(SIG_HELD_DROPPED) && before.is_empty() && k > 0 && got.out == w[start_k..] {
+                            ctx.known(SIG_HELD_DROPPED, || format!("misdeclared encoding {ce:?}, cuts={cuts:?}, lost {} bytes held by the decoder", start_k));
+                            return;
+                        }
+                    }
+                    ctx.fail_hint(
+                        "misdeclared-encoding-loses-bytes",
+                        format!("Content-Encoding {ce:?} on a body that is not such a stream, cuts={cuts:?} error_at={:?}\n in ={}\n out={}", got.error_at, show(w), show(&got.out)),
+                        hint,
+                    );
+                }
+                return;
+            }
+            // a valid stream damaged on the way: from the chunk after the error on, every chunk passes through unchanged,
+            // and the output of the failing call ends with the failing chunk
+            if let Some(k) = got.error_at {
+                if k < chunks.len() {
+                    if !got.per_call[k].ends_with(chunks[k]) {
+                        ctx.fail_hint(
+                            "passthrough-after-error",
+                            format!("the call that failed (chunk {k}) did not give the chunk back: in={} out={}", show(chunks[k]), show(&got.per_call[k])),
+                            hint,
+                        );
+                        return;
+                    }
+                    for j in (k + 1)..chunks.len() {
                         if got.per_call[j] != chunks[j] {
                             ctx.fail_hint(
                                 "passthrough-after-error",
@@ -1264,37 +1315,8 @@ fn exec_conserve(case: &W2Case, ctx: &mut Ctx) {
                         }
                     }
                     if !got.per_call[chunks.len()].is_empty() {
-                        ctx.fail_hint("passthrough-after-error", "end() returned bytes after an error".to_string(), hint);
+                        ctx.fail_hint("passthrough-after-error", "end() returned bytes after an error in an earlier call".to_string(), hint);
                         return;
-                    }
-                    if case.enc.is_none() {
-                        // misdeclared: nothing was really decoded, so conservation is exact
-                        if got.out != w {
-                            let before: Vec<u8> = got.per_call[..k].concat();
-                            let start_k: usize = chunks[..k].iter().map(|c| c.len()).sum();
-                            if ctx.is_open(SIG_HELD_DROPPED) && before.is_empty() && k > 0 && got.out == w[start_k..] {
-                                ctx.known(SIG_HELD_DROPPED, || format!("misdeclared encoding {ce:?}, cuts={cuts:?}, lost {} bytes held by the decoder", start_k));
-                                return;
-                            }
-                            ctx.fail_hint(
-                                "misdeclared-encoding-loses-bytes",
-                                format!("cuts={cuts:?}\n in ={}\n out={}", show(w), show(&got.out)),
-                                hint,
-                            );
-                        }
-                    }
-                }
-                None => {
-                    if case.enc.is_none() && !w.is_empty() && cuts.len() + 1 >= 1 {
-                        // plain bytes that the decoder accepted so far without output: they are held, and end() fails or flushes
-                        // nothing; the stream is then lost entirely unless it was empty.  Only report when bytes vanished.
-                        if got.out.is_empty() {
-                            if ctx.is_open(SIG_HELD_DROPPED) {
-                                ctx.known(SIG_HELD_DROPPED, || format!("misdeclared encoding {ce:?}: {} bytes swallowed by the decoder, error only at end()", w.len()));
-                                return;
-                            }
-                            ctx.fail_hint("misdeclared-encoding-loses-bytes", format!("whole body of {} bytes swallowed", w.len()), hint);
-                        }
                     }
                 }
             }
